@@ -26,6 +26,16 @@ type respPlace struct {
 	build func(n, i int, fault string) (map[string]string, string)
 }
 
+// argExprOf turns a fault written as one {{ }} block into the expression inside it; directives and
+// faults made of several statements cannot stand in an argument and are replaced by a division by zero
+func argExprOf(fault string) string {
+	t := strings.TrimSpace(fault)
+	if strings.HasPrefix(t, "@") || strings.Count(t, "{{") != 1 || !strings.HasSuffix(t, "}}") || strings.Contains(t, " = ") {
+		return "6 / zero"
+	}
+	return strings.TrimSuffix(strings.TrimPrefix(t, "{{"), "}}")
+}
+
 func sentinelStmts(n, i int, fault string) string {
 	var sb strings.Builder
 	for k := 0; k < n; k++ {
@@ -71,10 +81,7 @@ var respPlaces = []respPlace{
 		}, "page"
 	}},
 	{"inside-component-argument", func(n, i int, fault string) (map[string]string, string) {
-		expr := strings.TrimSuffix(strings.TrimPrefix(strings.TrimSpace(fault), "{{"), "}}")
-		if strings.HasPrefix(fault, "@") {
-			expr = "6 / zero" // a directive cannot stand in an argument
-		}
+		expr := argExprOf(fault)
 		if i < 0 {
 			expr = "\"fine\""
 		}
@@ -83,11 +90,18 @@ var respPlaces = []respPlace{
 			"page.tw":            "PAGE-SENTINEL-before @component(\"~card\", {t: " + expr + "}) PAGE-SENTINEL-after",
 		}, "page"
 	}},
-	{"inside-insert-argument", func(n, i int, fault string) (map[string]string, string) {
-		expr := strings.TrimSuffix(strings.TrimPrefix(strings.TrimSpace(fault), "{{"), "}}")
-		if strings.HasPrefix(fault, "@") {
-			expr = "6 / zero"
+	{"inside-unread-component-argument", func(n, i int, fault string) (map[string]string, string) {
+		expr := argExprOf(fault)
+		if i < 0 {
+			expr = "\"fine\""
 		}
+		return map[string]string{
+			"components/card.tw": "<card>PAGE-SENTINEL-comp {{ t }}@if(false){{ later }}@end</card>",
+			"page.tw":            "PAGE-SENTINEL-before @component(\"~card\", {t: \"shown\", later: " + expr + ", unread: " + expr + "}) PAGE-SENTINEL-after",
+		}, "page"
+	}},
+	{"inside-insert-argument", func(n, i int, fault string) (map[string]string, string) {
+		expr := argExprOf(fault)
 		if i < 0 {
 			expr = "\"fine\""
 		}
@@ -107,6 +121,10 @@ var respPlaces = []respPlace{
 var respFaults = []string{"{{ 1 / zero }}\n", "{{ MISSING_IDENT_SENTINEL }}\n", "{{ rows.nofn() }}\n", "{{ \"s\" + 1 }}\n",
 	// the failing expression is not the first of a list
 	"{{ [\"go\", \"html\", MISSING_IDENT_SENTINEL] }}\n", "{{ \"short text\".truncate(50, MISSING_IDENT_SENTINEL) }}\n", "{{ {a: 1, b: 1 / zero}.a }}\n",
+	// the fault sits in a loop-control condition, and in an object value that is never read
+	"@each(r in rows)PAGE-SENTINEL-inner@continueIf(r / zero)x@end\n", "@each(r in rows)PAGE-SENTINEL-inner@breakIf(MISSING_IDENT_SENTINEL)x@end\n",
+	"@each(r in rows)PAGE-SENTINEL-inner@if(r == 2)@continueIf(r.nofn())@end x@end\n",
+	"{{ u = {name: \"n\", age: 1 / zero} }}PAGE-SENTINEL-obj {{ u.name }}\n", "{{ [1, MISSING_IDENT_SENTINEL].len() }}\n",
 	// the message holds a percent sign
 	"{{ 7 % \"2\" }}\n", "{{ \"a\" % 3 }}\n",
 	// the page fails in a later pass of a loop, after the loop has produced output
@@ -121,7 +139,7 @@ func init() {
 	core.Register(&core.Check{
 		ID:    "C17",
 		Level: "exploration",
-		Rule: "cases are all combinations of {debug on, off} x {no custom error page, a valid one, one whose file is missing, one that fails at run time} x templates that succeed, fail at statement i of n for every i (n <= 4) at top level, in pass i of a loop, inside an insert block, inside the layout, inside a component file, inside a slot body, inside a component argument, inside the expression of a two-argument insert, or name an unknown template or a layout, x 10 run-time fault kinds (two with a percent sign in the message; the directory name holds one too); sequences of 2-4 configurations without a reset in between that differ in the debug flag only (the last one governs); the configurations follow each other in one process in seeded order (a stale page cached from another configuration would show). " +
+		Rule: "cases are all combinations of {debug on, off} x {no custom error page, a valid one, one whose file is missing, one that fails at run time} x templates that succeed, fail at statement i of n for every i (n <= 4) at top level, in pass i of a loop, inside an insert block, inside the layout, inside a component file, inside a slot body, inside a component argument, inside a component argument the component never reads, inside the expression of a two-argument insert, or name an unknown template or a layout, x 15 run-time fault kinds (two with a percent sign in the message; the directory name holds one too); sequences of 2-4 configurations without a reset in between that differ in the debug flag only (the last one governs); the configurations follow each other in one process in seeded order (a stale page cached from another configuration would show). " +
 			"A recording http.ResponseWriter captures body and writes; pages, identifiers, file names and the scratch directory carry sentinels, so 'part of the failed page', 'the message' and 'a path' are substring tests; the expected page is selected by the table of the statement. distinct_nontrivial = distinct (configuration, place, fault, position) combinations",
 		Assumptions: []string{
 			"configuration is set through NewTemplate after the verif reset hook (fields are sticky otherwise)",
